@@ -134,6 +134,19 @@ def expand_bounded(sess: Session):
         got = sorted((s.id, s._ili) for s in wv.synset('v-1').get_related('hyponym'))
         if got != want:
             bad.append({'synset': 'v-1', 'get_related': got, 'expected': want})
+        # closure() through placeholders = least fixed point of get_related (entities told apart by (id, ILI))
+        for start in [w.synset(u) for u in local.values()] + [wv.synset('v-1')]:
+            for rel in ('hypernym', 'hyponym'):
+                cases += 1
+                seen, todo = {}, list(start.get_related(rel))
+                while todo:
+                    x = todo.pop(0)
+                    if (x.id, x._ili) not in seen:
+                        seen[(x.id, x._ili)] = True
+                        todo.extend(x.get_related(rel))
+                got = sorted((x.id, x._ili) for x in start.closure(rel))
+                if got != sorted(seen):
+                    bad.append({'synset': start.id, 'closure': rel, 'got': got, 'reachable': sorted(seen)})
     finally:
         wn.config.data_directory = old
         shutil.rmtree(work, ignore_errors=True)
